@@ -49,9 +49,31 @@ def feq(a, b):
     return (math.isnan(a) and math.isnan(b)) or abs(a - b) <= 1e-12
 
 
-def apply_case(fl, e, c):
+def assign(fl, obj, a):
+    """re-parameterise a method object that has been used before, by plain attribute assignment"""
+    c = a["cls"]
+    if c in ("First", "Last"):
+        obj.rules = a["rules"]
+        obj.threshold = to_float(a["threshold"])
+    elif c in ("Highest", "Lowest"):
+        obj.rules = a["rules"]
+    elif c == "Threshold":
+        obj.threshold = to_float(a["threshold"])
+        obj.comparator = fl.Threshold.Comparator(a["comparator"])
+    return obj
+
+
+def apply_case(fl, e, c, reuse=False):
     rb = e.rule_blocks[0]
-    rb.activation = activation(fl, c["act"])
+    pool = e.__dict__.setdefault("_verif_methods", {})
+    cls = c["act"]["cls"]
+    if reuse and cls in pool:
+        # a long-lived method object whose public parameters are re-assigned between two activations
+        rb.activation = assign(fl, pool[cls][0], c["act"])
+        pool[cls][1].append(c["act"])
+    else:
+        rb.activation = activation(fl, c["act"])
+        pool[cls] = (rb.activation, [c["act"]])
     for r, en, ld in zip(rb.rules, c["en"], c["ld"]):
         r.enabled = bool(en)
         if ld and not r.is_loaded():
@@ -100,7 +122,9 @@ def run(ctx: core.Ctx):
             e = engines.setdefault(c["k"], make_block(fl, c["k"]))
             # the same block object is re-used for every case: an activation must not depend on the previous one
             try:
-                obs = apply_case(fl, e, c)
+                obs = apply_case(fl, e, c, reuse=(n % 3 != 0))
+                hist = e.__dict__["_verif_methods"][c["act"]["cls"]][1]
+                c = dict(c, method_object_history=[hist[0]] + hist[-3:-1] if len(hist) > 1 else [])
             except Exception as ex:  # the library raised where the specification does not
                 obs = None
                 pat = "all-on" if all(c["en"]) and all(c["ld"]) else ("one-disabled" if all(c["ld"]) else "one-unloaded")
@@ -158,7 +182,9 @@ def replay(v) -> int:
     e = make_block(fl, c["k"])
     if v["case"].get("previous_case_on_same_block") and v["case"]["previous_case_on_same_block"]["k"] == c["k"]:
         apply_case(fl, e, v["case"]["previous_case_on_same_block"])
-    obs = apply_case(fl, e, c)
+    for a in c.get("method_object_history", []):      # the same method object, used with earlier parameters first
+        apply_case(fl, e, dict(c, act=a), reuse=True)
+    obs = apply_case(fl, e, c, reuse=bool(c.get("method_object_history")))
     bad = compare(c, obs)
     print(c["act"], [to_float(d) for d in c["degs"]], "->", obs)
     if bad:
